@@ -326,6 +326,12 @@ pub fn run_cluster(sc: &Scenario, prop: &str) -> Result<RunResult, String> {
     }
     let t = cl.elapsed_ms();
     step(&mut cl, t + 300)?;
+    // a node with a slow start-up scan needs a while before it is up again
+    let deadline = cl.elapsed_ms() + 30_000;
+    while cl.shared.borrow().up.len() < ids.len() && cl.elapsed_ms() < deadline {
+        let t = cl.elapsed_ms();
+        step(&mut cl, t + 100)?;
+    }
     // restarted nodes are announced as left, then joined (what makes peers drop dead channels)
     if !ever_restarted.is_empty() && !real {
         for n in &ids {
@@ -572,6 +578,14 @@ pub fn run_cluster(sc: &Scenario, prop: &str) -> Result<RunResult, String> {
 
     // ---- collect ----
     let sh = cl.shared.borrow();
+    if std::env::var_os("DCSIM_DEBUG").is_some() {
+        for (n, st) in &sh.stores {
+            let st = st.st.lock();
+            for c in &st.calls {
+                eprintln!("STORE {n} call#{} {} {} items={:?} applied={} ok={}", c.no, c.kind, c.keyspace, c.items.iter().map(|(k, t)| format!("{k}@{}", fmt_ts(*t))).collect::<Vec<_>>(), c.applied, c.ok);
+            }
+        }
+    }
     let issued = issued_ops(&sh);
     let mut final_rows = BTreeMap::new();
     for (n, st) in &sh.stores {
